@@ -17,6 +17,7 @@ import (
 
 	"github.com/thanos-community/promql-engine/api"
 	"github.com/thanos-community/promql-engine/engine"
+	"github.com/thanos-community/promql-engine/verifhook"
 )
 
 // ---------------------------------------------------------------------------------------------
@@ -54,6 +55,7 @@ var faultShapes = []faultShape{
 	{Query: `sum(m0) / on() sum(m1)`},
 	{Query: `histogram_quantile(0.9, h_bucket)`},
 	{Query: `histogram_quantile(0.9, rate(h_bucket[1m]))`},
+	{Query: `histogram_quantile(0.9, m0)`}, // no series is a bucket: nothing comes out, the operand is read all the same
 	{Query: `m0{a="x"} + on(a,b) m0`, Opt: "default"},
 	// a pinned selector below a vectorised aggregation: nothing asks it for its series before its first batch
 	{Query: `sum(m0 @ 3660 + on(a) group_left m1)`},
@@ -169,7 +171,7 @@ func (p *faultProp) NumCases(tier string) int {
 
 // hostile-parameter grid of C13 (no faults): extreme parameters on degenerate data must come back
 // as the query's error or value, never as a dead process.
-var hostileDatasets = []string{"full", "empty", "single-sample", "all-nan"}
+var hostileDatasets = []string{"full", "empty", "single-sample", "all-nan", "odd-buckets"}
 
 func hostileQueries() []string {
 	var qs []string
@@ -187,7 +189,8 @@ func hostileQueries() []string {
 	qs = append(qs, "clamp(m0, 5, 1)", "clamp(m0, NaN, 1)", "clamp_min(m0, NaN)", "clamp_max(m0, scalar(nosuch))", "m0 / 0", "m0 % 0", "0 / m0", "sqrt(-m0)", "ln(m0 - m0)",
 		"topk(1, m0) + on(a, b) topk(0, m0)", "stddev(m0 * Inf)", "avg(m0 * 1e308)", "sum(m0) / sum(nosuch)", "m0 @ 0", "m0 offset 100h", "rate(m0[1ms])",
 		"max_over_time(m0[1ms])", "nosuch", "sum(nosuch)", "-nosuch", "nosuch + nosuch", "histogram_quantile(0.5, nosuch)", "scalar(nosuch) + 1", "vector(NaN)", "topk(1, vector(NaN))",
-		"m0 + on(nosuch) group_left m1", "count(m0) by (nosuch)", "sum without (a, b, __name__) (m0)", "deriv(m0[15s])", "irate(m0[15s])", "changes(m0[1s])")
+		"histogram_quantile(0.5, h_bucket)", "histogram_quantile(0.9, sum by (le) (h_bucket))", "sum by (a) (histogram_quantile(0.5, h_bucket))", "histogram_quantile(0.5, m0)",
+		"histogram_quantile(1, rate(h_bucket[1m]))", "m0 + on(nosuch) group_left m1", "count(m0) by (nosuch)", "sum without (a, b, __name__) (m0)", "deriv(m0[15s])", "irate(m0[15s])", "changes(m0[1s])")
 	return qs
 }
 
@@ -202,6 +205,35 @@ func hostileDataset(kind string) Dataset {
 				d.Series[i].Samples = d.Series[i].Samples[40:41]
 			}
 		}
+		return d
+	case "odd-buckets":
+		// histograms whose buckets collapse: two spellings of +Inf only, one bucket only, unparsable bounds
+		d := faultDataset()
+		for i := range d.Series {
+			if d.Series[i].Labels["__name__"] != "h_bucket" {
+				continue
+			}
+			switch d.Series[i].Labels["le"] {
+			case "1":
+				if d.Series[i].Labels["a"] == "x" {
+					d.Series[i].Labels["le"] = "Inf"
+				} else {
+					d.Series[i].Labels["le"] = "bogus"
+				}
+			case "5":
+				d.Series[i].Labels["le"] = "+Inf"
+				if d.Series[i].Labels["a"] == "y" {
+					d.Series[i].Labels["le"] = "5.0"
+				}
+			case "+Inf":
+				if d.Series[i].Labels["a"] == "x" {
+					d.Series[i].Labels["le"] = "inf"
+				} else {
+					d.Series[i].Labels["le"] = "5"
+				}
+			}
+		}
+		d.Normalize()
 		return d
 	case "all-nan":
 		d := faultDataset()
@@ -262,7 +294,7 @@ func (p *faultProp) Gen(seed uint64, tier string, i int) Case {
 		c.NParts = 2
 	}
 	c.Extra = map[string]any{"fault_kind": kind, "pick": float64(r.Uint64() % (1 << 50)), "shape": float64(shape)}
-	if p.id == "C14" && (kind == "cancel" || kind == "block") {
+	if (p.id == "C14" || p.id == "C17") && (kind == "cancel" || kind == "block") {
 		if api := Pick(r, []string{"", "", "cancel", "close", "cancel2", "early-cancel", "early-close"}); api != "" {
 			c.Extra["api"] = api
 		}
@@ -285,6 +317,8 @@ type faultRun struct {
 	Leaked     []string
 	ExecReturn bool
 	Panicked   string // panic that escaped Exec onto the harness goroutine
+	HookVisits int64  // visits of the engine's goroutine hand-off points (hook 2) during the run
+	HookFired  string // site[id] at which a hook-cancel was delivered
 }
 
 var errCallsByKind = map[string][]string{
@@ -293,7 +327,7 @@ var errCallsByKind = map[string][]string{
 	"panic-runtime": {"Querier", "Select", "SS.Next", "SS.At", "SS.Err", "Labels", "Iterator", "Seek", "Next", "At"},
 	"panic-error":   {"Querier", "Select", "SS.Next", "Labels", "Iterator", "Seek", "Next", "At"},
 	"panic-string":  {"Querier", "Select", "SS.Next", "SS.Err", "Labels", "Iterator", "Seek", "Next", "At"},
-	"cancel":        {"Querier", "Select", "SS.Next", "SS.At", "SS.Err", "Labels", "Iterator", "Seek", "Next", "At"},
+	"cancel":        {"Querier", "Select", "SS.Next", "SS.At", "SS.Err", "Labels", "Iterator", "Seek", "Next", "At", "Close"},
 	"block":         {"Querier", "Select", "SS.Next", "Seek", "Next"},
 }
 
@@ -303,13 +337,41 @@ func execFaulted(c Case, faults []Fault, extCancelAfterBlock bool) faultRun {
 }
 
 // execFaultedPart: for distributed shapes the faults apply to partition faultPart only.
-func execFaultedPart(c Case, faults []Fault, faultPart int) faultRun {
-	var fr faultRun
+func execFaultedPart(c Case, faults []Fault, faultPart int) (fr faultRun) {
 	ctx, cancel := context.WithCancel(context.Background())
 	defer cancel()
 	opts := c.Store
 	opts.Faults = faults
 	var stores []*Store
+	// hook-cancel: the cancellation is delivered at the hookAt-th visit of a goroutine hand-off point
+	// (worker send/work/output, exchange send/recv, coalesce merge), i.e. between two engine goroutines
+	// rather than inside a storage callback. Visits are counted in every run (calibration included).
+	hookAt := int64(0)
+	if v, ok := c.Extra["hook_cancel_at"].(float64); ok {
+		hookAt = int64(v)
+	}
+	var hookN atomic.Int64
+	var hookFired atomic.Value
+	if !raceBuild {
+		perturbMu.Lock()
+		verifhook.Callback = func(site string, id int) {
+			if k := hookN.Add(1); hookAt > 0 && k == hookAt {
+				hookFired.Store(fmt.Sprintf("%s[%d]", site, id))
+				cancel()
+				for _, s := range stores {
+					s.MarkCancelled()
+				}
+			}
+		}
+		defer func() {
+			fr.HookVisits = hookN.Load()
+			if s, ok := hookFired.Load().(string); ok {
+				fr.HookFired = s
+			}
+			verifhook.Callback = nil
+			perturbMu.Unlock()
+		}()
+	}
 	// api != "": the cancellation does not come through the context given to Exec but through the
 	// query object, from another goroutine: cancel | close | cancel2 (twice), optionally preceded by
 	// an "early-" Cancel() issued before Exec has started (a no-op that must not disarm later calls)
@@ -606,6 +668,16 @@ func (p *faultProp) Check(c Case) Outcome {
 		return o
 	}
 	kind, _ := c.Extra["fault_kind"].(string)
+	hookAt := int64(0)
+	if kind == "hook-cancel" {
+		if cal.HookVisits == 0 {
+			o.Skipped = "the plan passes no hook point"
+			return o
+		}
+		pick, _ := c.Extra["pick"].(float64)
+		hookAt = 1 + int64(uint64(pick)%uint64(cal.HookVisits))
+		o.Count("hook_visits_in_calibration", cal.HookVisits)
+	}
 	f, part, naddr, ok := pickFault(c, cal)
 	o.Count("addresses_in_calibration", int64(naddr))
 	var faults []Fault
@@ -626,7 +698,7 @@ func (p *faultProp) Check(c Case) Outcome {
 		}
 	} else if kind == "sequence" {
 		return p.checkSequence(c)
-	} else if kind != "none" {
+	} else if kind != "none" && kind != "hook-cancel" {
 		o.Skipped = "no such fault address"
 		return o
 	}
@@ -636,8 +708,15 @@ func (p *faultProp) Check(c Case) Outcome {
 	before := len(scanGoroutines())
 	c2 := c
 	c2.Store.Faults = nil
+	if hookAt > 0 {
+		c2.Extra = map[string]any{"hook_cancel_at": float64(hookAt)}
+	}
 	fr := execFaultedPart(c2, faults, part)
 	fired := len(fr.Report.Fired) > 0
+	if kind == "hook-cancel" {
+		fired = fr.HookFired != ""
+		f = Fault{Kind: kind, Call: fr.HookFired, Nth: int(hookAt)}
+	}
 	if fired {
 		o.NonTrivial = true
 		o.Count("faults_fired", 1)
@@ -705,7 +784,7 @@ func (p *faultProp) bystander(c Case, o *Outcome) {
 
 func (p *faultProp) judgeCancel(c Case, kind string, fired bool, fr, cal faultRun, desc string, o *Outcome) {
 	res := fr.Out.Res
-	if kind == "cancel" || kind == "block" {
+	if kind == "cancel" || kind == "block" || kind == "hook-cancel" {
 		if !fired {
 			return
 		}
@@ -831,7 +910,7 @@ func (p *faultProp) checkSequence(c Case) Outcome {
 func init() {
 	Register(&faultProp{id: "C13", kinds: []string{"panic-runtime", "panic-error", "panic-string"}})
 	Register(&faultProp{id: "C15", kinds: []string{"err", "err", "err-deadline"}})
-	Register(&faultProp{id: "C14", kinds: []string{"cancel", "block", "err", "panic-runtime", "none"}})
+	Register(&faultProp{id: "C14", kinds: []string{"cancel", "block", "err", "panic-runtime", "none", "hook-cancel", "hook-cancel"}})
 	Register(&faultProp{id: "C17", kinds: []string{"none", "err", "panic-runtime", "cancel", "sequence"}})
 }
 
